@@ -169,7 +169,13 @@ func (u *Unit) prescan(body ast.Node) {
 				// declared outside the literal?
 				lit := litStack[len(litStack)-1]
 				if v.Pos() < lit.Pos() || v.Pos() > lit.End() {
-					u.volatile[v] = true
+					// assigned by an escaping closure: under the data-race freedom assumption the enclosing function can
+					// observe such a write only after a call or a synchronisation operation, so the variable is havoced
+					// at those points (havocClosureVars) instead of being unknown at every read
+					if u.closureWritten == nil {
+						u.closureWritten = map[*types.Var]bool{}
+					}
+					u.closureWritten[v] = true
 				}
 			}
 		}
@@ -1110,7 +1116,11 @@ func (u *Unit) finishReturn(st *State, s *ast.ReturnStmt) {
 		}
 		u.eval(st, call)
 	}
-	u.resync(st)
+	// the spawned goroutines' writes are visible to the caller; closure-written LOCALS are not havoced here (a named
+	// result has already received its value)
+	for _, f := range u.spawned {
+		f(st)
+	}
 	u.retCount++
 	u.checkPost(st, pos)
 }
@@ -2028,6 +2038,30 @@ func (u *Unit) inlinableDeferLit(call *ast.CallExpr, fl *ast.FuncLit) bool {
 func (u *Unit) resync(st *State) {
 	for _, f := range u.spawned {
 		f(st)
+	}
+	u.havocClosureVars(st)
+}
+
+// havocClosureVars: local variables assigned inside escaping closures get arbitrary values (the closure may have run).
+func (u *Unit) havocClosureVars(st *State) {
+	if len(u.closureWritten) == 0 || st == nil {
+		return
+	}
+	var vs []*types.Var
+	for v := range u.closureWritten {
+		vs = append(vs, v)
+	}
+	sortVars(vs)
+	for _, v := range vs {
+		cur, ok := st.vars[v]
+		if !ok {
+			continue
+		}
+		if u.boxed[v] {
+			u.storeCell(st, v.Type(), cur.S, u.freshOf(st, v.Type(), v.Name()+"_cw").S)
+			continue
+		}
+		st.vars[v] = u.freshOf(st, v.Type(), v.Name()+"_cw")
 	}
 }
 
